@@ -532,5 +532,6 @@ pub fn run(ctx: &Ctx) -> &'static str {
     );
     crate::props::e2e::run(ctx, crate::props::e2e::Phase::Reload, ctx.tier.pick(1, 3));
     crate::props::e2e::run(ctx, crate::props::e2e::Phase::ReloadEarly, ctx.tier.pick(1, 2));
+    crate::props::e2e::run(ctx, crate::props::e2e::Phase::ReloadOutage, ctx.tier.pick(1, 2));
     "exploration"
 }
